@@ -49,7 +49,7 @@ def gen(r, tier, i):
             'ops': ops, 'init_n': r.randint(0, 9), 'host': r.choice(['empty', 'generated']),
             'override': {'target': r.choice(['p0', 's', 'sub.q', 'sub2.u', 'sub.h']), 'via': r.choice(['composer', 'process', 'merge', 'merge']),
                          'late': r.random() < 0.5},
-            'meta_overlap': r.random() < 0.5, 'shared_schema': r.random() < 0.4, 'own_init': r.random() < 0.25}
+            'tags': r.random() < 0.5, 'meta_overlap': r.random() < 0.5, 'shared_schema': r.random() < 0.4, 'own_init': r.random() < 0.25}
 
 
 def classes():
@@ -82,8 +82,17 @@ def classes():
         def next_update(self, timestep, states):
             return {'S': {'m': states['S']['n'] * 3}}
 
+    class Tag(Step):
+        """A step without a flow entry that appends its tag to a list: the list shows the order they ran in."""
+        def ports_schema(self):
+            return {'T': {'tags': {'_default': [], '_updater': 'set', '_emit': True}}}
+
+        def next_update(self, timestep, states):
+            return {'T': {'tags': (states['T']['tags'] + [self.parameters['tag']])[-6:]}}
+
     class C(Composer):
-        defaults = {'k': 2, 'nest': True, 'deriver': False, 'tag': '', 'shared': False, 'own_init': False, 'mixed': False}
+        defaults = {'k': 2, 'nest': True, 'deriver': False, 'tag': '', 'shared': False, 'own_init': False, 'mixed': False,
+                    'tags': False}
 
         def generate_processes(self, config):
             d = {'p%d' % i: P({'inc': i + 1, 'ts': 0.5 * (i + 1), 'shared': config['shared']}) for i in range(config['k'])}
@@ -95,10 +104,14 @@ def classes():
 
         def generate_steps(self, config):
             d = {'s': St(), 't': St()}
+            if config.get('tags'):
+                # steps without flow entries, run in declaration order: a (root), n (inside compartment sub, which
+                # exists already through the processes when nest is on), z (root)
+                d = {'atag': Tag({'tag': 'a'}), 's': St(), 't': St(), 'sub': {'ntag': Tag({'tag': 'n'})}, 'ztag': Tag({'tag': 'z'})}
             if config['nest']:
                 d['sub2'] = {'u': St()}       # nested steps and flow: every part has nested dictionaries
                 if config.get('mixed'):
-                    d['sub'] = {'h': St()}    # a compartment that holds a process and a step
+                    d['sub'] = dict(d.get('sub', {}), h=St())    # a compartment that holds a process and a step
             return d
 
         def generate_flow(self, config):
@@ -112,8 +125,10 @@ def classes():
         def generate_topology(self, config):
             d = {'p%d' % i: {'S': ('st',)} for i in range(config['k'])}
             d.update({'s': {'S': ('st',)}, 't': {'S': ('st2',)}})
+            if config.get('tags'):
+                d.update({'atag': {'T': ('tg',)}, 'ztag': {'T': ('tg',)}, 'sub': {'ntag': {'T': ('..', 'tg')}}})
             if config['nest']:
-                d['sub'] = {'q': {'S': ('..', 'st2')}}
+                d['sub'] = dict(d.get('sub', {}), q={'S': ('..', 'st2')})
                 d['sub2'] = {'u': {'S': ('..', 'st')}}
                 if config.get('mixed'):
                     d['sub']['h'] = {'S': ('..', 'st')}
@@ -174,7 +189,7 @@ def run(spec):
     V = Viol()
     P, St, C = classes()
     cfg = {'k': spec['k'], 'nest': spec['nest'], 'deriver': spec['deriver'], 'shared': bool(spec.get('shared_schema')),
-           'own_init': bool(spec.get('own_init'))}
+           'own_init': bool(spec.get('own_init')), 'tags': bool(spec.get('tags'))}
     path = tuple(spec['path'])
     stats = {}
     try:
@@ -372,7 +387,7 @@ def override_case(V, spec, P, St, C, cfg):
         for k, v in d.items():
             if isinstance(v, dict):
                 walk(v, p + (k,))
-            elif isinstance(v, Process):
+            elif isinstance(v, Process) and 'S' in v.get_schema():
                 found[p + (k,)] = v.get_schema()['S']['n']['_default']
     walk(comp['processes'])
     walk(comp['steps'])
